@@ -178,7 +178,11 @@ def file_vs_string(sources):
             from gherkin.token_matcher import TokenMatcher
             want, _ = S.outcome(lambda: Parser(AstBuilder(IdGenerator())).parse(s, TokenMatcher(dialect)))
             via_scanner, _ = S.outcome(lambda: Parser(AstBuilder(IdGenerator())).parse(TokenScanner(p), TokenMatcher(dialect)))
-            ev = source_event(p)
+            try:
+                ev = source_event(p)
+            except Exception as x:  # noqa: BLE001
+                bad.append(dict(name=name, what="source_event(path) raised " + type(x).__name__ + ": " + str(x)[:200], source=s))
+                continue
             via_event, _ = S.outcome(lambda: Parser(AstBuilder(IdGenerator())).parse(ev["source"]["data"], TokenMatcher(dialect)))
             if ev["source"]["data"] != s:
                 bad.append(dict(name=name, what="source_event does not return the file's text unchanged", source=s))
